@@ -138,11 +138,40 @@ def toi_check(oFile, oRule, lToi, fails, job_desc):
     return n
 
 
+JOB_ALARM_S = 240
+
+
+class JobTimeout(BaseException):
+    pass
+
+
+def _job_alarm(signum, frame):
+    raise JobTimeout()
+
+
 def run_job(job):
+    import signal
+
+    signal.signal(signal.SIGALRM, _job_alarm)
+    signal.alarm(JOB_ALARM_S)
     try:
         return run_job_inner(job)
+    except JobTimeout as e:
+        # a job that does not finish: a hang of the real code (C19), reported with the innermost frame
+        site = crash_site(e)
+        out = {"job": {k: job[k] for k in job if k != "text"}, "failures": [], "fired": {}, "steps": 0, "changed": 0, "upd": {}, "parse": "ok", "wall": float(JOB_ALARM_S), "tois": 0, "idem": 0}
+        try:
+            cla, oc, style, dicts = job_config(job)
+            inp = describe(job, style, dicts, job_text(job))
+        except Exception:  # noqa: BLE001
+            inp = {k: job[k] for k in job if k != "text"}
+        out["failures"].append({"prop": "C19", "site": site, "kind": "hang", "detail": "no result after %d s (parse + full fix run)" % JOB_ALARM_S, "input": inp})
+        out["failures"].append({"prop": "CORR", "site": site, "kind": "job-timeout", "detail": "instrumented run did not finish within %d s: nothing could be checked for this input" % JOB_ALARM_S, "input": inp})
+        return out
     except Exception:  # noqa: BLE001 - an error of the harness, never a violation
         return {"job": {k: job[k] for k in job if k != "text"}, "failures": [], "fired": {}, "steps": 0, "changed": 0, "upd": {}, "parse": "harness: " + traceback.format_exc()[-800:], "wall": 0.0, "tois": 0, "idem": 0}
+    finally:
+        signal.alarm(0)
 
 
 def run_job_inner(job):
